@@ -29,7 +29,7 @@ type c07Case struct {
 	Source  string `json:"source,omitempty"`
 }
 
-type c07 struct{ region *guard.Region }
+type c07 struct{ pool guard.Pool }
 
 func NewC07() core.Property { return &c07{} }
 func (*c07) ID() string     { return "C07" }
@@ -136,21 +136,15 @@ func (p *c07) Run(ci any, env *core.Env) *core.Failure {
 	if len(buf) > 0 {
 		env.NonTrivial(core.HashOf(c.Pattern, c.HayQ))
 	}
-	if p.region == nil {
-		reg, err := guard.New(1 << 16)
-		if err != nil {
-			panic(err)
-		}
-		p.region = reg
-	}
+	region := p.pool.For(len(buf) + 64)
 	var h []byte
 	if c.Front {
-		h = p.region.AtStart(buf, c.Slack)
+		h = region.AtStart(buf, c.Slack)
 	} else {
-		h = p.region.AtEnd(buf, c.Slack)
+		h = region.AtEnd(buf, c.Slack)
 	}
-	p.region.ReadOnly()
-	defer p.region.Writable()
+	region.ReadOnly()
+	defer region.Writable()
 	var s string
 	if len(h) > 0 {
 		s = unsafe.String(unsafe.SliceData(h), len(h)) // string header over the guarded memory
